@@ -260,6 +260,7 @@ PROPS = {
             {"name": "c07.mailbox-race", "pkg": AGENT, "test": "TestVerifC07MailboxRace", "shards_t": 8, "shards_q": 2, "crash_is_violation": True},
             {"name": "c07.mux-leave", "pkg": AGENT, "test": "TestVerifC07MuxLeave", "shards_t": 8, "shards_q": 2, "crash_is_violation": True},
             {"name": "c07.node", "pkg": ROUTING, "test": "TestVerifC07Node", "shards_t": 16, "shards_q": 4, "crash_is_violation": True},
+            {"name": "c07.late-registration", "pkg": ROUTING, "test": "TestVerifC07LateRegistration", "shards_t": 8, "shards_q": 4, "crash_is_violation": True},
         ],
     },
     "C18": {
